@@ -171,6 +171,7 @@ type rewriter struct {
 	commSend    map[*ast.SendStmt]bool
 	recv2       map[*ast.UnaryExpr]bool
 	printCall   map[*ast.CallExpr]string
+	ctxArgs     map[*ast.CallExpr][]int
 	native      map[ast.Node]bool // channel constructs on native (foreign element) channels: left untouched
 	mixedSelect string
 	tmp         int
@@ -264,6 +265,7 @@ func (r *rewriter) prepass() {
 	r.recv2 = map[*ast.UnaryExpr]bool{}
 	r.printCall = map[*ast.CallExpr]string{}
 	r.native = map[ast.Node]bool{}
+	r.ctxArgs = map[*ast.CallExpr][]int{}
 	ast.Inspect(r.file, func(n ast.Node) bool {
 		switch v := n.(type) {
 		case *ast.ChanType:
@@ -281,6 +283,17 @@ func (r *rewriter) prepass() {
 		}
 		switch v := n.(type) {
 		case *ast.CallExpr:
+			// a context.Context handed to code that is NOT rewritten (standard library other than the shimmed packages,
+			// third-party modules) must be a real one: the virtual context is bridged (vcontext.Native)
+			if fn := calleeFunc(r.info, v); fn != nil && fn.Pkg() != nil && foreignPkg(fn.Pkg().Path()) {
+				if sig, ok := fn.Type().(*types.Signature); ok {
+					for i, a := range v.Args {
+						if i < sig.Params().Len() && isStdContext(sig.Params().At(i).Type()) && isStdContext(r.info.TypeOf(a)) {
+							r.ctxArgs[v] = append(r.ctxArgs[v], i)
+						}
+					}
+				}
+			}
 			if id, ok := v.Fun.(*ast.Ident); ok {
 				switch {
 				case (r.isBuiltin(id, "len") || r.isBuiltin(id, "cap")) && len(v.Args) == 1:
@@ -402,6 +415,52 @@ func (r *rewriter) prepass() {
 		}
 		return true
 	})
+}
+
+// calleeFunc returns the function or method a call statically refers to.
+func calleeFunc(info *types.Info, call *ast.CallExpr) *types.Func {
+	var id *ast.Ident
+	switch f := unparen(call.Fun).(type) {
+	case *ast.Ident:
+		id = f
+	case *ast.SelectorExpr:
+		id = f.Sel
+	}
+	if id == nil {
+		return nil
+	}
+	fn, _ := info.Uses[id].(*types.Func)
+	return fn
+}
+
+// foreignPkg: a package that is not rewritten and not replaced by a shim.
+func foreignPkg(path string) bool {
+	if strings.HasPrefix(path, "github.com/mimecast/dtail") {
+		return false
+	}
+	if _, shimmed := shimImports[path]; shimmed || path == "os" || path == "fmt" {
+		return false
+	}
+	return true
+}
+
+func isStdContext(t types.Type) bool {
+	n, ok := t.(*types.Named)
+	return ok && n.Obj().Pkg() != nil && n.Obj().Pkg().Path() == "context" && n.Obj().Name() == "Context"
+}
+
+// ctxImportName is the local name under which this file imports "context" (replaced by the shim).
+func (r *rewriter) ctxImportName() string {
+	for _, imp := range r.file.Imports {
+		p, _ := strconv.Unquote(imp.Path.Value)
+		if p == "context" || p == shimImports["context"] {
+			if imp.Name != nil {
+				return imp.Name.Name
+			}
+			return "context"
+		}
+	}
+	return "context"
 }
 
 func unparen(e ast.Expr) ast.Expr {
@@ -549,6 +608,10 @@ func (r *rewriter) run() ([]byte, error) {
 					Args: []ast.Expr{r.siteNamed(n, name), size}})
 			case r.printCall[n] != "":
 				c.Replace(&ast.CallExpr{Fun: vrtSel("Stdout" + r.printCall[n]), Args: n.Args, Ellipsis: n.Ellipsis})
+			case len(r.ctxArgs[n]) > 0:
+				for _, i := range r.ctxArgs[n] {
+					n.Args[i] = &ast.CallExpr{Fun: &ast.SelectorExpr{X: ast.NewIdent(r.ctxImportName()), Sel: ast.NewIdent("Native")}, Args: []ast.Expr{n.Args[i]}}
+				}
 			}
 		case *ast.GoStmt:
 			c.Replace(r.goStmt(n))
